@@ -1,6 +1,7 @@
 import Bxh.Model.Exec
 import Bxh.Model.Router
 import Driver.Util
+import Bxh.Model.ProofGroups
 namespace Driver.ExecEngine
 open Bxh Bxh.Exec
 
@@ -27,6 +28,7 @@ structure St where
   hist : List (Nat × Node) := []      -- the node after each height (for `reorg`: consensus replaces an executed block)
   minJ : Nat := 1                     -- `minJnlHeight` of the state ledger: the lowest height a rollback may name (journals are pruned below head-10)
   log : List (Tx × Bool) := []        -- every transaction of this history, in order (tx token `again <k>`: the k-th once more)
+  groups : Nat := 5                   -- `configGroup` of verifyProofs: 5 for proof type "parallel" (the world's default), 1 for "serial"
 
 def initNode : Node :=
   let store : KV Key Val := worldServices.foldl (fun m p =>
@@ -266,7 +268,7 @@ def step (s : St) (ws : List String) : St × String :=
             [("adm0", genesisBalance - 8100000141750), ("adm1", genesisBalance + 47250), ("adm2", genesisBalance + 47250),
              ("adm3", genesisBalance + 2567250), ("ca9", 100000000000 - 210000)] } }
       else initNode
-    ({ cfg := cfg, node := n0, started := true, hist := [(n0.height, n0)] }, s!"ok h={n0.height}")
+    ({ cfg := cfg, node := n0, started := true, hist := [(n0.height, n0)], groups := if parseKV opts "proof" == some "serial" then 1 else 5 }, s!"ok h={n0.height}")
   | "block" :: rest => doBlock s rest
   | ["propose", _] => (s, "ok")       -- harness bookkeeping of proposal references: nothing for the model
   | "reorg" :: hh :: rest =>
@@ -322,6 +324,16 @@ def step (s : St) (ws : List String) : St × String :=
       fun a => s!"{a}={s.node.led.getBal a}"))
   | ["q", "dump"] => (s, "-")
   | ["q", "dumpdiff"] => (s, "-")
+  | "q" :: "proofs" :: rest =>
+    -- the proof-verification fan-out (`Bxh.ProofGroups.verifyProofs`) over these transactions: position ↦ reason, nothing is executed
+    let txs := (splitTxs rest).map parseTx
+    if txs.all Option.isSome then
+      let check (t : Tx) : Option String := match t with
+        | .ibtp _ i pk => proofVerdict s.cfg i pk
+        | _ => none
+      let inv := (Bxh.ProofGroups.verifyProofs s.groups check (txs.filterMap id)).mergeSort (fun x y => x.1 ≤ y.1)
+      (s, "inv={" ++ joinSp (inv.map fun p => s!"{p.1}:{p.2}") ++ "}")
+    else (s, "bad-op")
   | "q" :: "prop" :: _ => (s, "-")
   | "q" :: "obj" :: _ => (s, "-")
   | "q" :: "view" :: _ => (s, "-")
